@@ -23,12 +23,37 @@ deleted behind the client's back: the missing file is noticed by the next alloca
 def WS (s : St) : Prop :=
   ∀ i, bitOf s.bf i = true → ∀ x ∈ s.bad, x.1 = i → s.fileExists.getD x.2 false = false
 
+/-- A set bit names a piece whose recorded hash is the hash of its true content (whatever happens to
+the files: the only pieces for which this can fail are padding-only, and their bit is set by nothing but
+a successful hash check of zeroes). -/
+def PadSound (s : St) : Prop := ∀ i, bitOf s.bf i = true → s.cfg.padOK i = true
+
 structure WSound (s : St) : Prop where
   cfg : CfgWF s.cfg
   bad : BadWF s
   ws : WS s
+  pad : PadSound s
 
 theorem WSound.zero {s : St} (h : WSound s) : Sound0 s := ⟨h.cfg, h.bad⟩
+
+/-- A bitfield, when there is one, has one bit per piece. -/
+def BfLen (s : St) : Prop := ∀ b, s.bf = some b → b.length = s.n
+
+/-- Piece `i` exists and its recorded hash is not the hash of its true content (a padding-only piece
+with a wrong recorded hash): it can never be verified. -/
+def Unver (c : Cfg) (i : Nat) : Prop := i < c.n ∧ c.padOK i = false
+
+/-- No piece that can never be verified has its bit set. -/
+def NoBit (s : St) : Prop := ∀ i, Unver s.cfg i → bitOf s.bf i = false
+
+theorem BfLen.of_eq {s s' : St} (h : BfLen s) (hc : s'.cfg = s.cfg) (hbf : s'.bf = s.bf ∨ s'.bf = none) : BfLen s' := by
+  intro b hb
+  rcases hbf with h' | h'
+  · rw [h'] at hb
+    have := h b hb
+    unfold St.n at *
+    rw [hc]; exact this
+  · rw [h'] at hb; cases hb
 
 /-- No file that holds a bad section of piece `i` in `s'` has come into existence between `s` and `s'`. -/
 def FEle (s s' : St) (i : Nat) : Prop :=
@@ -42,11 +67,15 @@ structure Adv (s s' : St) : Prop where
   bad : ∀ x ∈ s'.bad, x ∈ s.bad
   bf : ∀ i, bitOf s'.bf i = true → (bitOf s.bf i = true ∧ FEle s s' i) ∨ s'.diskOKi i = true
   per : ∀ i, bitOf s'.persisted i = true → bitOf s.persisted i = true ∨ bitOf s.bf i = true ∨ s'.diskOKi i = true
+  /-- a bitfield has one bit per piece -/
+  len : BfLen s → BfLen s'
+  /-- with a piece that can never be verified (and has no bit) the torrent does not become complete -/
+  nc : BfLen s → NoBit s → (∃ i, Unver s.cfg i) → s.completed = false → s'.completed = false
 
-theorem diskOKi_mono {s s' : St} (h : ∀ x ∈ s'.bad, x ∈ s.bad) (i : Nat) (hi : s.diskOKi i = true) :
+theorem diskOKi_mono {s s' : St} (hc : s'.cfg = s.cfg) (h : ∀ x ∈ s'.bad, x ∈ s.bad) (i : Nat) (hi : s.diskOKi i = true) :
     s'.diskOKi i = true := by
   rw [diskOKi_eq_true] at *
-  exact fun x hx => hi x (h x hx)
+  exact ⟨fun x hx => hi.1 x (h x hx), hc ▸ hi.2⟩
 
 theorem FEle.refl (s : St) (i : Nat) : FEle s s i := fun _ _ _ h => h
 
@@ -54,7 +83,20 @@ theorem FEle.of_eq {s s' : St} (h : s'.fileExists = s.fileExists) (i : Nat) : FE
   fun _ _ _ hx => h ▸ hx
 
 theorem Adv.refl (s : St) : Adv s s :=
-  ⟨rfl, fun _ h => h, fun i h => Or.inl ⟨h, FEle.refl s i⟩, fun _ h => Or.inl h⟩
+  ⟨rfl, fun _ h => h, fun i h => Or.inl ⟨h, FEle.refl s i⟩, fun _ h => Or.inl h, fun h => h, fun _ _ _ h => h⟩
+
+/-- Whatever an admissible step does, a piece that can never be verified gets no bit: a new bit is
+justified by the disk, and `diskOKi` includes the recorded hash being right. -/
+theorem Adv.noBit {s s' : St} (a : Adv s s') (h : NoBit s) : NoBit s' := by
+  intro i hi
+  have hi' : Unver s.cfg i := a.cfg ▸ hi
+  cases hb : bitOf s'.bf i with
+  | false => rfl
+  | true =>
+    rcases a.bf i hb with ⟨h', _⟩ | h'
+    · rw [h i hi'] at h'; cases h'
+    · have := ((diskOKi_eq_true s' i).1 h').2
+      rw [hi.2] at this; cases this
 
 theorem Adv.trans {a b c : St} (h1 : Adv a b) (h2 : Adv b c) : Adv a c where
   cfg := h2.cfg.trans h1.cfg
@@ -63,18 +105,21 @@ theorem Adv.trans {a b c : St} (h1 : Adv a b) (h2 : Adv b c) : Adv a c where
     rcases h2.bf i hi with ⟨h, f2⟩ | h
     · rcases h1.bf i h with ⟨h, f1⟩ | h
       · exact Or.inl ⟨h, fun x hx hxi hF => f1 x (h2.bad x hx) hxi (f2 x hx hxi hF)⟩
-      · exact Or.inr (diskOKi_mono h2.bad i h)
+      · exact Or.inr (diskOKi_mono h2.cfg h2.bad i h)
     · exact Or.inr h
   per := fun i hi => by
     rcases h2.per i hi with h | h | h
     · rcases h1.per i h with h | h | h
       · exact Or.inl h
       · exact Or.inr (Or.inl h)
-      · exact Or.inr (Or.inr (diskOKi_mono h2.bad i h))
+      · exact Or.inr (Or.inr (diskOKi_mono h2.cfg h2.bad i h))
     · rcases h1.bf i h with ⟨h, _⟩ | h
       · exact Or.inr (Or.inl h)
-      · exact Or.inr (Or.inr (diskOKi_mono h2.bad i h))
+      · exact Or.inr (Or.inr (diskOKi_mono h2.cfg h2.bad i h))
     · exact Or.inr (Or.inr h)
+  len := fun h => h2.len (h1.len h)
+  nc := fun hl hn hu hc =>
+    h2.nc (h1.len hl) (h1.noBit hn) (by obtain ⟨i, hi⟩ := hu; exact ⟨i, h1.cfg ▸ hi⟩) (h1.nc hl hn hu hc)
 
 theorem Sound0.adv {s s' : St} (h : Sound0 s) (a : Adv s s') : Sound0 s' where
   cfg := a.cfg ▸ h.cfg
@@ -87,17 +132,23 @@ theorem Sound.adv {s s' : St} (h : Sound s) (a : Adv s s') : Sound s' where
   bad := (h.zero.adv a).bad
   bits := fun i hi => by
     rcases a.bf i hi with ⟨h', _⟩ | h'
-    · exact diskOKi_mono a.bad i (h.bits i h')
+    · exact diskOKi_mono a.cfg a.bad i (h.bits i h')
     · exact h'
   pers := fun i hi => by
     rcases a.per i hi with h' | h' | h'
-    · exact diskOKi_mono a.bad i (h.pers i h')
-    · exact diskOKi_mono a.bad i (h.bits i h')
+    · exact diskOKi_mono a.cfg a.bad i (h.pers i h')
+    · exact diskOKi_mono a.cfg a.bad i (h.bits i h')
     · exact h'
+
+theorem PadSound.adv {s s' : St} (h : PadSound s) (a : Adv s s') : PadSound s' := fun i hi => by
+  rcases a.bf i hi with ⟨h', _⟩ | h'
+  · rw [a.cfg]; exact h i h'
+  · exact padOK_of_diskOKi h'
 
 theorem WSound.adv {s s' : St} (h : WSound s) (a : Adv s s') : WSound s' where
   cfg := (h.zero.adv a).cfg
   bad := (h.zero.adv a).bad
+  pad := h.pad.adv a
   ws := fun i hi x hx hxi => by
     rcases a.bf i hi with ⟨h', f⟩ | h'
     · have hmiss := h.ws i h' x (a.bad x hx) hxi
@@ -106,13 +157,19 @@ theorem WSound.adv {s s' : St} (h : WSound s) (a : Adv s s') : WSound s' where
       · have := f x hx hxi hF
         rw [hmiss] at this; cases this
     · rw [diskOKi_eq_true] at h'
-      exact absurd hxi (h' x hx)
+      exact absurd hxi (h'.1 x hx)
 
 /-- The common case: configuration, disk and files untouched, bitfield kept or dropped, resume bitfield
 kept, dropped or overwritten with the bitfield. -/
 theorem Adv.of_eq {s s' : St} (hc : s'.cfg = s.cfg) (hb : s'.bad = s.bad) (hf : s'.fileExists = s.fileExists)
     (hbf : s'.bf = s.bf ∨ s'.bf = none)
-    (hp : s'.persisted = s.persisted ∨ s'.persisted = s.bf ∨ s'.persisted = none) : Adv s s' where
+    (hp : s'.persisted = s.persisted ∨ s'.persisted = s.bf ∨ s'.persisted = none)
+    (hcm : s'.completed = true → s.completed = true := by first | exact id | (simp; done)) : Adv s s' where
+  len := fun h => h.of_eq hc hbf
+  nc := fun _ _ _ h => by
+    cases hc' : s'.completed with
+    | false => rfl
+    | true => rw [hcm hc'] at h; cases h
   cfg := hc
   bad := fun x hx => hb ▸ hx
   bf := fun i hi => by
@@ -126,8 +183,9 @@ theorem Adv.of_eq {s s' : St} (hc : s'.cfg = s.cfg) (hb : s'.bad = s.bad) (hf : 
     · rw [h] at hi; cases hi
 
 theorem Adv.frame {s s' : St} (hc : s'.cfg = s.cfg) (hb : s'.bad = s.bad) (hf : s'.fileExists = s.fileExists)
-    (hbf : s'.bf = s.bf) (hp : s'.persisted = s.persisted) : Adv s s' :=
-  Adv.of_eq hc hb hf (Or.inl hbf) (Or.inl hp)
+    (hbf : s'.bf = s.bf) (hp : s'.persisted = s.persisted)
+    (hcm : s'.completed = true → s.completed = true := by first | exact id | (simp; done)) : Adv s s' :=
+  Adv.of_eq hc hb hf (Or.inl hbf) (Or.inl hp) hcm
 
 /-! ### stop, writeBitfield -/
 
@@ -239,6 +297,8 @@ theorem stop_fe (s : St) (e : Bool) :
       simpa using this
 
 theorem stop_adv (s : St) (e : Bool) : Adv s (s.stop e) where
+  len := fun h => h.of_eq (by simp) (stop_bf s e)
+  nc := fun _ _ _ h => by simpa using h
   cfg := by simp
   bad := fun x hx => by simpa using hx
   bf := fun i hi => by
@@ -253,8 +313,9 @@ theorem stop_adv (s : St) (e : Bool) : Adv s (s.stop e) where
 
 /-- `stop` applied to a state that agrees with `a` on the relevant fields. -/
 theorem stop_adv' (a s : St) (e : Bool) (hc : s.cfg = a.cfg) (hb : s.bad = a.bad) (hf : s.fileExists = a.fileExists)
-    (hbf : s.bf = a.bf) (hp : s.persisted = a.persisted) : Adv a (s.stop e) :=
-  (Adv.frame hc hb hf hbf hp).trans (stop_adv s e)
+    (hbf : s.bf = a.bf) (hp : s.persisted = a.persisted)
+    (hcm : s.completed = true → a.completed = true := by first | exact id | (simp; done)) : Adv a (s.stop e) :=
+  (Adv.frame hc hb hf hbf hp hcm).trans (stop_adv s e)
 
 /-- Closes `Adv a b` when `b` agrees with `a` on cfg, bad, fileExists, bf, persisted (frame simp lemmas). -/
 macro "adv_frame" : tactic => `(tactic| (apply Adv.frame <;> first | rfl | (simp; done)))
@@ -274,7 +335,45 @@ theorem handlePeerSnubbed_adv (m : M) (k : Nat) : Adv m.1 (handlePeerSnubbed m k
 theorem handleMetadataReject_adv (m : M) (k : Nat) : Adv m.1 (handleMetadataReject m k).1 := by adv_frame
 theorem acceptPeer_adv (m : M) (k : Nat) (ip : String) (fast ext bad dup : Bool) :
     Adv m.1 (acceptPeer m k ip fast ext bad dup).1.1 := by adv_frame
-theorem checkCompletion_adv (s : St) : Adv s s.checkCompletion.1 := by adv_frame
+theorem allTrue_false_of_bit {b : List Bool} {i : Nat} (hi : i < b.length) (hb : b.getD i false = false) :
+    allTrue b = false := by
+  cases h : allTrue b with
+  | false => rfl
+  | true =>
+    unfold allTrue at h
+    rw [List.all_eq_true] at h
+    have hm : b[i] ∈ b := List.getElem_mem hi
+    have := h _ hm
+    simp only [id] at this
+    rw [List.getD_eq_getElem?_getD, List.getElem?_eq_getElem hi] at hb
+    simp only [Option.getD_some] at hb
+    rw [hb] at this; cases this
+
+/-- `checkCompletion` leaves bitfield and disk alone; it declares the torrent complete only when every
+bit is set — never while a piece that cannot be verified has no bit. -/
+theorem checkCompletion_adv (s : St) : Adv s s.checkCompletion.1 := by
+  have hc : s.checkCompletion.1.cfg = s.cfg := by simp
+  have hb : s.checkCompletion.1.bad = s.bad := by simp
+  have hf : s.checkCompletion.1.fileExists = s.fileExists := by simp
+  have hbf : s.checkCompletion.1.bf = s.bf := by simp
+  have hp : s.checkCompletion.1.persisted = s.persisted := by simp
+  refine ⟨hc, fun x hx => hb ▸ hx, fun i hi => Or.inl ⟨hbf ▸ hi, FEle.of_eq hf i⟩, fun i hi => Or.inl (hp ▸ hi),
+    fun h => h.of_eq hc (Or.inl hbf), ?_⟩
+  intro hl hn hu hcf
+  obtain ⟨i, hi⟩ := hu
+  unfold St.checkCompletion
+  rw [if_neg (by simp [hcf])]
+  split
+  · unfold St.crash
+    dsimp only
+    split <;> exact hcf
+  · next b hb' =>
+    have hbit := hn i hi
+    rw [hb'] at hbit
+    simp only [bitOf_some] at hbit
+    have hlt : i < b.length := by rw [hl b hb']; exact hi.1
+    rw [allTrue_false_of_bit hlt hbit]
+    exact hcf
 theorem hadReady_adv (m : M) : Adv m.1 (hadReady m).1 := by adv_frame
 theorem reconcile_adv (s : St) (impl : List ImplDl) : Adv s (reconcile s impl).1 := by adv_frame
 theorem reconcileIdl_adv (s : St) (impl : List Nat) : Adv s (reconcileIdl s impl).1 := by adv_frame
@@ -339,8 +438,25 @@ theorem handleVerifyCommand_adv (m : M) : Adv m.1 (handleVerifyCommand m).1 := b
 
 /-! ### Allocation -/
 
+theorem length_foldl_setAt (idx : List Nat) (l : List Bool) :
+    (idx.foldl (fun d i => setAt d i true) l).length = l.length := by
+  induction idx generalizing l with
+  | nil => rfl
+  | cons a idx ih => rw [List.foldl_cons, ih]; simp [setAt]
+
 theorem markPaddingPieces_adv (s : St) (h : Sound0 s) : Adv s s.markPaddingPieces := by
-  refine ⟨by simp, fun x hx => by simpa using hx, ?_, fun i hi => Or.inl (by simpa using hi)⟩
+  refine ⟨by simp, fun x hx => by simpa using hx, ?_, fun i hi => Or.inl (by simpa using hi), ?_,
+    fun _ _ _ hc => by simpa using hc⟩
+  rotate_left
+  · intro hl b hb
+    unfold St.markPaddingPieces at hb ⊢
+    split at hb
+    · next hbf => exact hl b (by simpa [hbf] using hb)
+    · next b0 hbf =>
+      simp only [Option.some.injEq] at hb
+      subst hb
+      rw [length_foldl_setAt]
+      exact hl b0 hbf
   intro i hi
   unfold St.markPaddingPieces at hi
   split at hi
@@ -351,7 +467,7 @@ theorem markPaddingPieces_adv (s : St) (h : Sound0 s) : Adv s s.markPaddingPiece
     · left; exact ⟨by simpa [hbf] using h1, FEle.of_eq (by simp) i⟩
     · right
       simp only [List.mem_filter, List.mem_range, Bool.and_eq_true] at h1
-      have hd : s.diskOKi i = true := diskOKi_of_no_data s h.bad i (h.cfg i h1.2.1)
+      have hd : s.diskOKi i = true := diskOKi_of_no_data s h.bad i (h.cfg i h1.2.1.1) h1.2.2
       simpa using hd
 
 theorem hadCheck_adv (m : M) : Adv m.1 (hadCheck m).1 := by
@@ -359,14 +475,20 @@ theorem hadCheck_adv (m : M) : Adv m.1 (hadCheck m).1 := by
   dsimp only
   split
   · simp only [onSt_fst]
-    exact stop_adv' _ _ _ (by simp) (by simp) (by simp) (by simp) (by simp)
+    exact (checkCompletion_adv m.1).trans (stop_adv _ _)
   · exact (checkCompletion_adv m.1).trans (hadReady_adv (m.1.checkCompletion.1, m.2))
 
 /-- Installing an all-false bitfield: every (non-existent) bit is trivially justified. -/
 theorem freshBf_adv (s : St) : Adv s { s with bf := some (List.replicate s.n false) } :=
-  ⟨rfl, fun _ hx => hx, fun i hi => by simp [bitOf] at hi, fun _ hi => Or.inl hi⟩
+  ⟨rfl, fun _ hx => hx, fun i hi => by simp [bitOf] at hi, fun _ hi => Or.inl hi,
+    fun _ b hb => by simp only [Option.some.injEq] at hb; subst hb; simp [St.n], fun _ _ _ h => h⟩
 
-theorem resetCompletion_adv (s : St) : Adv s s.resetCompletion := by adv_frame
+theorem resetCompletion_adv (s : St) : Adv s s.resetCompletion := by
+  apply Adv.frame (hcm := ?_) <;> first | rfl | (simp; done) | skip
+  unfold St.resetCompletion
+  split
+  · intro h; cases h
+  · exact id
 
 theorem hadFreshInstall_adv (m : M) (h : Sound0 m.1) : Adv m.1 (hadFreshInstall m).1 := by
   unfold hadFreshInstall
@@ -447,6 +569,7 @@ theorem allocatorRun_adv (m : M) (h : Sound0 m.1) : Adv m.1 (allocatorRun m).1 :
     have e2 : m1.1.bad = m.1.bad := by subst hm1; simp
     have e3 : m1.1.bf = m.1.bf := by subst hm1; simp
     have e4 : m1.1.persisted = m.1.persisted := by subst hm1; simp
+    have e6 : m1.1.completed = m.1.completed := by subst hm1; simp
     have e5 : ∀ f, m1.1.fileExists.getD f false = (decide (f < m.1.cfg.flens.length) &&
         (m.1.fileExists.getD f false ||
           ((List.range m.1.cfg.flens.length).filter (fun i => !(m.1.cfg.fpads.getD i false))).contains f)) := by
@@ -456,7 +579,8 @@ theorem allocatorRun_adv (m : M) (h : Sound0 m.1) : Adv m.1 (allocatorRun m).1 :
         (fun i => !(m.1.fileExists.getD i false))
     · -- nothing was missing: no file came into existence
       have a1 : Adv m.1 m1.1 := by
-        refine ⟨e1, fun x hx => e2 ▸ hx, fun i hi => Or.inl ⟨e3 ▸ hi, fun x _ _ hF => ?_⟩, fun i hi => Or.inl (e4 ▸ hi)⟩
+        refine ⟨e1, fun x hx => e2 ▸ hx, fun i hi => Or.inl ⟨e3 ▸ hi, fun x _ _ hF => ?_⟩, fun i hi => Or.inl (e4 ▸ hi),
+          fun hl => hl.of_eq e1 (Or.inl e3), fun _ _ _ hc => e6 ▸ hc⟩
         rw [e5] at hF
         simp only [Bool.and_eq_true, decide_eq_true_eq, Bool.or_eq_true] at hF
         rcases hF.2 with hF | hF
@@ -468,8 +592,10 @@ theorem allocatorRun_adv (m : M) (h : Sound0 m.1) : Adv m.1 (allocatorRun m).1 :
     · -- files were missing: every bit afterwards is justified by the disk
       have a := handleAllocationDone_adv m1 ((((List.range m.1.cfg.flens.length).filter
         (fun i => !(m.1.cfg.fpads.getD i false))).any fun i => m.1.fileExists.getD i false)) true h1
+      have hnb : NoBit m.1 → NoBit m1.1 := fun hn i hi => by rw [e3]; exact hn i (e1 ▸ hi)
       refine ⟨a.cfg.trans e1, fun x hx => e2 ▸ a.bad x hx, fun i hi => Or.inr (handleAllocationDone_missing m1 _ h1 i hi),
-        fun i hi => ?_⟩
+        fun i hi => ?_, fun hl => a.len (hl.of_eq e1 (Or.inl e3)),
+        fun hl hn hu hc => a.nc (hl.of_eq e1 (Or.inl e3)) (hnb hn) (by obtain ⟨i, hi⟩ := hu; exact ⟨i, e1 ▸ hi⟩) (e6 ▸ hc)⟩
       rcases a.per i hi with hp | hp | hp
       · exact Or.inl (e4 ▸ hp)
       · exact Or.inr (Or.inl (e3 ▸ hp))
@@ -486,9 +612,29 @@ theorem hvdInstall_adv (m : M) : Adv m.1 (hvdInstall m).1 := by
     intro i hi
     have := ((diskOK_getD m.1 i).1 hi).2
     simpa using this
-  refine ⟨by simp, fun x hx => by simpa using hx, fun i hi => Or.inr ?_, fun i hi => Or.inr (Or.inr ?_)⟩
+  have hcm : (hvdInstall m).1.completed = true → m.1.completed = true := by
+    unfold hvdInstall; dsimp only; simp only [onSt_fst]
+    split
+    · intro hc
+      revert hc
+      unfold St.resetCompletion
+      split
+      · intro h; cases h
+      · simp
+    · simp
+  refine ⟨by simp, fun x hx => by simpa using hx, fun i hi => Or.inr ?_, fun i hi => Or.inr (Or.inr ?_), ?_, ?_⟩
   · rw [hbf] at hi; exact hok i hi
   · rw [hper] at hi; exact hok i hi
+  · intro _ b hb
+    rw [hbf] at hb
+    simp only [Option.some.injEq] at hb
+    subst hb
+    have hn : (hvdInstall m).1.n = m.1.n := by unfold St.n; simp
+    rw [hn]; simp [St.diskOK]
+  · intro _ _ _ hc
+    cases h : (hvdInstall m).1.completed with
+    | false => rfl
+    | true => rw [hcm h] at hc; cases hc
 
 theorem hvdHaves_adv (m : M) : Adv m.1 (hvdHaves m).1 := by adv_frame
 
@@ -507,7 +653,16 @@ theorem pwdSet_adv (m : M) (w : WriteJob) (b : List Bool) (hb : m.1.bf = some b)
     (hok : m.1.diskOKi w.piece = true) : Adv m.1 (pwdSet m w b).1 := by
   have hbf : (pwdSet m w b).1.bf = some (setAt b w.piece true) := by
     unfold pwdSet; dsimp only; split <;> simp
-  refine ⟨by simp, fun x hx => by simpa using hx, fun i hi => ?_, fun i hi => Or.inl (by simpa using hi)⟩
+  refine ⟨by simp, fun x hx => by simpa using hx, fun i hi => ?_, fun i hi => Or.inl (by simpa using hi), ?_,
+    fun _ _ _ hc => by simpa using hc⟩
+  rotate_left
+  · intro hl b' hb'
+    rw [hbf] at hb'
+    simp only [Option.some.injEq] at hb'
+    subst hb'
+    have hn : (pwdSet m w b).1.n = m.1.n := by unfold St.n; simp
+    rw [hn]; simp only [setAt, List.length_set]
+    exact hl b hb
   rw [hbf, bitOf_some, getD_setAt] at hi
   split at hi
   · next h => right; rw [h.1]; simpa using hok
@@ -559,13 +714,15 @@ theorem writerRun_adv (m : M) (w : WriteJob) (h : Sound0 m.1) : Adv m.1 (writerR
   · dsimp only
     split
     · next hsecs =>
-      refine handlePieceWriteDone_adv m w false fun _ _ => diskOKi_of_no_data m.1 h.bad _ ?_
-      intro sc hsc
-      have : sc ∉ (m.1.cfg.sections w.piece).filter fun sc => !(m.1.cfg.fpads.getD sc.file false) := by
-        rw [hsecs]; exact List.not_mem_nil
-      simp only [List.mem_filter, hsc, true_and] at this
-      simp at this
-      simp [Cfg.isData, this]
+      refine handlePieceWriteDone_adv m _ false fun hg _ => diskOKi_of_no_data m.1 h.bad _ ?_ ?_
+      · intro sc hsc
+        have : sc ∉ (m.1.cfg.sections w.piece).filter fun sc => !(m.1.cfg.fpads.getD sc.file false) := by
+          rw [hsecs]; exact List.not_mem_nil
+        simp only [List.mem_filter, hsc, true_and] at this
+        simp at this
+        simp [Cfg.isData, this]
+      · simp only [Bool.and_eq_true] at hg
+        exact hg.2
     · split
       · refine Adv.trans ?_ (handlePieceWriteDone_adv _ w true (fun _ h => by cases h))
         exact Adv.frame rfl rfl rfl rfl rfl
@@ -577,11 +734,13 @@ theorem writerRun_adv (m : M) (w : WriteJob) (h : Sound0 m.1) : Adv m.1 (writerR
                 (fun sc => s!"write:{fileName m.1.cfg sc.file}:{sc.off}:{sc.len}:ok"),
               bad := s.bad.filter (fun b => b.1 ≠ w.piece) }).1 := by
             refine ⟨by simp, fun x hx => ?_, fun i hi => Or.inl ⟨by simpa using hi, FEle.of_eq (by simp) i⟩,
-              fun i hi => Or.inl (by simpa using hi)⟩
+              fun i hi => Or.inl (by simpa using hi), fun hl => hl.of_eq (by simp) (Or.inl (by simp)),
+              fun _ _ _ hc => by simpa using hc⟩
             simp only [onSt_fst, List.mem_filter] at hx
             exact hx.1
           refine a1.trans (handlePieceWriteDone_adv _ w false fun _ _ => ?_)
-          simp [St.diskOKi]
+          have hpad : m.1.cfg.padOK w.piece = true := padOK_of_stored (by rw [‹List.filter _ _ = _ :: _›]; simp)
+          simp [St.diskOKi, hpad]
 
 /-! ### Workers, handle, step -/
 
